@@ -61,7 +61,13 @@ type Contract struct {
 	NoSafety     bool // do not generate Go-level safety obligations (functional contract only)
 	OnlySafety   bool
 	Unfold       int
+	Cases        *CaseSplit
 	Asserts      map[string][]Clause // call-site assertions
+}
+
+type CaseSplit struct {
+	Expr   ast.Expr
+	Lo, Hi int
 }
 
 type SpecFn struct {
@@ -274,7 +280,7 @@ var clauseKeywords = map[string]bool{
 	"props": true, "arith": true, "inline": true, "trusted": true, "pure": true, "requires": true,
 	"ensures": true, "assigns": true, "loop": true, "invariant": true, "decreases": true,
 	"func": true, "spec": true, "axiom": true, "instantiate": true, "nosafety": true,
-	"onlysafety": true, "unfold": true, "assert": true,
+	"onlysafety": true, "unfold": true, "assert": true, "cases": true,
 }
 
 var labelRe = regexp.MustCompile(`^([A-Za-z_][A-Za-z0-9_\-]*):(?:[^:]|$)`)
@@ -385,6 +391,19 @@ func (e *Engine) parseContracts(body, pkgPath, file string, line0 int) error {
 			case "unfold":
 				n, _ := strconv.Atoi(rc.text)
 				cur.Unfold = n
+			case "cases":
+				// cases <expr> <lo> <hi>: discharge every post obligation separately for expr == lo..hi and for the rest
+				fs := strings.Fields(rc.text)
+				if len(fs) < 3 {
+					return fmt.Errorf("%s:%d: cases <expr> <lo> <hi>", file, rc.line)
+				}
+				lo, err1 := strconv.Atoi(fs[len(fs)-2])
+				hi, err2 := strconv.Atoi(fs[len(fs)-1])
+				ex, err3 := ParseSpecExpr(strings.Join(fs[:len(fs)-2], " "))
+				if err1 != nil || err2 != nil || err3 != nil {
+					return fmt.Errorf("%s:%d: bad cases clause", file, rc.line)
+				}
+				cur.Cases = &CaseSplit{Expr: ex, Lo: lo, Hi: hi}
 			case "instantiate":
 				var targs []string
 				for _, a := range strings.Split(rc.text, ",") {
